@@ -6,7 +6,6 @@ import (
 	_ "github.com/apmckinlay/gsuneido/builtin"
 	"github.com/apmckinlay/gsuneido/compile"
 	. "github.com/apmckinlay/gsuneido/core"
-	"github.com/apmckinlay/gsuneido/dbms/query"
 )
 
 func try(f func()) (e any) {
@@ -15,35 +14,20 @@ func try(f func()) (e any) {
 	return nil
 }
 
-func main() {
+func run(src string) {
 	th := &Thread{}
-	tran := query.VerifTestTran()
-	r := NewSuRecord()
-	r.Add(IntVal(1))
-	r.Set(SuStr("a"), IntVal(2))
-	fmt.Println(Display(th, r))
-	v := compile.Constant(Display(th, r))
-	fmt.Printf("%T %v %v\n", v, v.Equal(r), r.Equal(v))
-	for _, src := range []string{`"abc`, `"abc\n`, `'a\'`, "`abc", `"a\"`, `"\`, `"a\x4`, `"a\\`} {
-		var v Value
-		e := try(func() { v = compile.Constant(src) })
-		fmt.Printf("%-10q constant: %v %v\n", src, v, e)
-		e = try(func() { v = compile.Constant("function(){ x = " + src) })
-		fmt.Printf("%-10q function: %v %v\n", src, v, e)
-		var q query.Query
-		e = try(func() { q = query.ParseQuery("table where a is "+src, tran, nil) })
-		fmt.Printf("%-10q query: %v %v\n", src, q, e)
-	}
-	ob := &SuObject{}
-	ob.Set(SuStr("default"), True)
-	ob.Set(SuStr("function"), IntVal(1))
-	ob.Set(SuStr("true"), IntVal(1))
-	ob.Set(True, IntVal(1))
-	ob.Set(SuStr("a?"), IntVal(1))
-	d := DateFromLiteral("20200101.123456789012")
-	ob.Set(d, d)
-	s := Display(th, ob)
-	fmt.Println(s)
-	e := try(func() { v = compile.Constant(s) })
-	fmt.Println(v, e, v != nil && v.Equal(ob))
+	var v Value
+	e := try(func() { v = th.Call(compile.Constant(src)) })
+	fmt.Println(v, e)
+}
+
+func main() {
+	run(`function() { a = { x = 1; b = { x }; b }; c = { try x catch ; x = 5; x }; b1 = a(); c(); b1() }`)
+	run(`function() { a = { x = 1; b = { x }; b }; c = { |x| x }; b1 = a(); c(7); b1() }`)
+	run(`function() { a = { |x| b = { x }; b }; c = { x = 5 }; b1 = a(1); c(); b1() }`)
+	run(`function() { a = { |x| b = { x }; b }; c = { |x| x }; b1 = a(1); c(7); b1() }`)
+	run(`function() { a = { |x| b = { x }; b }; c = { |x| d = { x }; d }; b1 = a(1); d1 = c(7); Object(b1(), d1()) }`)
+	run(`function() { a = { |x| b = { x }; b }; b1 = a(1); b2 = a(2); Object(b1(), b2()) }`)
+	fn := compile.Constant(`function() { a = { x = 1; b = { x }; b }; c = { |x| x }; b1 = a(); c(7); b1() }`)
+	_ = fn
 }
